@@ -100,6 +100,42 @@ def shape_same(s, t, exact=True):
     return comp_same(s, t, exact)
 
 
+def drop_collinear_jordan(j, tol=1e-9):
+    """polygonal curve without the vertices that lie (within tol, relative) inside the straight line between their
+    neighbours -- float data only: whether clean() removes such a vertex depends on roundings"""
+    if not all(len(s) == 2 for s in j) or len(j) <= 3:
+        return j
+    vs = [s[0] for s in j]
+    changed = True
+    while changed and len(vs) > 3:
+        changed = False
+        for i in range(len(vs)):
+            a, b, c = vs[i - 1], vs[i], vs[(i + 1) % len(vs)]
+            ux, uy, vx, vy = b[0] - a[0], b[1] - a[1], c[0] - b[0], c[1] - b[1]
+            cr = ux * vy - uy * vx
+            dot = ux * vx + uy * vy
+            scale = max(1, abs(ux), abs(uy), abs(vx), abs(vy))
+            if abs(cr) <= tol * scale * scale and dot > 0:
+                vs.pop(i)
+                changed = True
+                break
+    return [[vs[i], vs[(i + 1) % len(vs)]] for i in range(len(vs))]
+
+
+def drop_collinear(s, tol=1e-9):
+    return map_shape_jordans(s, lambda j: drop_collinear_jordan(j, tol))
+
+
+def map_shape_jordans(s, f):
+    if s[0] in "EW":
+        return s
+    if s[0] == "S":
+        return ("S", f(s[1]))
+    if s[0] == "C":
+        return ("C", [f(j) for j in s[1]])
+    return ("D", [map_shape_jordans(c, f) for c in s[1]])
+
+
 def res_same(ri, rm, same):
     """outcomes ('ok', v) / ('err', kind) / ('nofuel',)"""
     if ri[0] != rm[0]:
